@@ -669,7 +669,7 @@ func genCacheOps(r *Rng, n int, keys []string, faults bool) []Step {
 				// a numeric constant where a pattern is expected
 				out = append(out, Step{Op: "numpat", N: r.Intn(3)})
 			default:
-				out = append(out, Step{Op: "compilebad", K: r.Pick([]string{"(", "a(", "[a", "a**", "(?P<n", "\\", ")", "a)", "(a"})})
+				out = append(out, Step{Op: "compilebad", N: r.Intn(64), K: r.Pick([]string{"(", "a(", "[a", "a**", "(?P<n", "\\", ")", "a)", "(a"})})
 			}
 		}
 	}
@@ -758,7 +758,7 @@ func GenC16H(seed, run uint64) *Scenario {
 	for n := r.Weighted([]int{2, 3, 2, 1}); n > 0; n-- {
 		at := r.Intn(len(s.Steps) + 1)
 		k := keys[r.Intn(len(keys))]
-		st := Step{Op: "pernode", N: r.Intn(5), K: k, R: genRepl(r, countGroups(k)), C: r.Intn(2)}
+		st := Step{Op: "pernode", N: r.Intn(7), K: k, R: genRepl(r, countGroups(k)), C: r.Intn(14)}
 		if st.N == 2 && r.Chance(2, 3) {
 			st.R = r.Pick([]string{"$1st", "<$1>", "$1$2", "x$1", "$2-$1"}) // names a group: only some of the nodes' patterns have it
 		}
